@@ -29,6 +29,7 @@ Probe == LET inner == Obj(<<<<97>>, <<49>>, <<>>>>, <<IntV(1), Arr(<<Null>>), St
 Parts == {PtrEscape(t) : t \in JoinTokens}                                    \* a single token, escaped
          \cup {PtrEscape(<<97>>) \o <<SLASH>> \o PtrEscape(t) : t \in {<<49>>, <<126>>, <<>>}}   \* two tokens
          \cup {PrintPtr(<<t>>) : t \in {<<97>>, <<49>>, <<47>>, <<>>}}        \* absolute: replaces
+         \cup {PrintPtr(<<<<>>, <<97>>>>), PrintPtr(<<<<>>, <<>>>>)}          \* absolute, beginning with empty tokens: "//a", "//"
 
 ASSUME PrintT(ToJson([probe |-> Probe]))
 
